@@ -492,7 +492,7 @@ func valIte(c *Term, a, b Val) Val {
 		return Val{K: VIface, Typ: a.Typ, Tag: Ite(c, a.Tag, b.Tag), T: Ite(c, a.T, b.T)}
 	case VFunc:
 		if a.Fn != b.Fn {
-			if a.Fn == nil && b.Fn == nil {
+			if a.T != nil && b.T != nil {
 				return Val{K: VFunc, Typ: a.Typ, T: Ite(c, a.T, b.T)}
 			}
 			unsupported("merge of distinct closures")
@@ -501,6 +501,9 @@ func valIte(c *Term, a, b Val) Val {
 			return Val{K: VFunc, Typ: a.Typ, T: Ite(c, a.T, b.T)}
 		}
 		out := Val{K: VFunc, Typ: a.Typ, Fn: a.Fn}
+		if a.T != nil && b.T != nil {
+			out.T = Ite(c, a.T, b.T)
+		}
 		for i := range a.Bind {
 			out.Bind = append(out.Bind, valIte(c, a.Bind[i], b.Bind[i]))
 		}
